@@ -120,13 +120,15 @@ Definition quantize (p : jparams) (e : Z) : Z :=
 
 Definition Traits_ComputeErrorValue (p : jparams) (e : Z) : Z := ModuloRange p (quantize p e).
 
-(* jpegls/lossless (en|de)coder.computeErrorValue: int8 / int16 narrowing *)
-Definition narrowErrorValue (bd delta : Z) : Z := if bd <=? 8 then wrapS 8 delta else wrapS 16 delta.
+(* jpegls/lossless (en|de)coder.computeErrorValue: traits.ModuloRange(delta)
+   (until commit 603ce05 this narrowed with int8/int16: finding F06, the 1x1 image [2049] at
+   P = 12 decoded to 1) *)
+Definition ll_computeErrorValue (p : jparams) (delta : Z) : Z := ModuloRange p delta.
 
 (* the error computation of each package's encoder *)
-Definition pk_error (pk : pkg) (p : jparams) (bd delta : Z) : Z :=
+Definition pk_error (pk : pkg) (p : jparams) (delta : Z) : Z :=
   match pk with
-  | PkLossless => narrowErrorValue bd delta
+  | PkLossless => ll_computeErrorValue p delta
   | PkNear => Traits_ComputeErrorValue p delta
   end.
 
@@ -159,12 +161,12 @@ Definition ctx_index (pk : pkg) (qs : Z) : option nat :=
 (* encoder side. Returns (write ops, updated context, value left in pixels[idx]).
    one-component lossless path: pixels[idx] keeps the source sample;
    all other paths store ComputeReconstructedSample. *)
-Definition regular_enc (pk : pkg) (store_rec : bool) (p : jparams) (bd : Z) (c : rctx)
+Definition regular_enc (pk : pkg) (store_rec : bool) (p : jparams) (c : rctx)
            (qs ra rb rc x : Z) : list wop * rctx * Z :=
   let sign := BitwiseSign qs in
   let k := ComputeGolombParameter c in
   let predictedValue := CorrectPrediction p (Predict ra rb rc + ApplySign (cC c) sign) in
-  let errorValue := pk_error pk p bd (ApplySign (x - predictedValue) sign) in
+  let errorValue := pk_error pk p (ApplySign (x - predictedValue) sign) in
   let ec := match pk with
             | PkLossless => GetErrorCorrection c k 0
             (* encodeComponent passes k|near, encodeRegularSample passes k: the function
@@ -197,21 +199,21 @@ Definition regular_dec (p : jparams) (c : rctx) (qs ra rb rc : Z) (bits : list b
 (* ---------- run interruption sample, one-component paths ---------- *)
 
 (* encodeRunInterruptionPixel(x, ra, rb): (ops, rc0', rc1', reconstructed) *)
-Definition interrupt_enc (pk : pkg) (p : jparams) (bd : Z) (st : jstate) (x ra rb : Z)
+Definition interrupt_enc (pk : pkg) (p : jparams) (st : jstate) (x ra rb : Z)
   : list wop * jstate * Z :=
   if Z.abs (ra - rb) <=? jp_near p then
-    let errorValue := pk_error pk p bd (x - ra) in
+    let errorValue := pk_error pk p (x - ra) in
     let '(ops, c1) := EncodeRunInterruption p (js_ri st) (js_rc1 st) errorValue in
     (ops, mkJst (js_ctxs st) (js_rc0 st) c1 (js_ri st), ComputeReconstructedSample p ra errorValue)
   else
-    let errorValue := pk_error pk p bd ((x - rb) * signInt (rb - ra)) in
+    let errorValue := pk_error pk p ((x - rb) * signInt (rb - ra)) in
     let '(ops, c0) := EncodeRunInterruption p (js_ri st) (js_rc0 st) errorValue in
     (ops, mkJst (js_ctxs st) c0 (js_rc1 st) (js_ri st),
      ComputeReconstructedSample p rb (errorValue * signInt (rb - ra))).
 
-(* decodeRunInterruptionPixel(ra, rb). lossless narrows the decoded error (after applying the
-   sign for context 0) before reconstruction; nearlossless applies the sign inside. *)
-Definition interrupt_dec (pk : pkg) (p : jparams) (bd : Z) (st : jstate) (ra rb : Z) (bits : list bool)
+(* decodeRunInterruptionPixel(ra, rb). lossless passes the decoded error (after applying the
+   sign for context 0) through computeErrorValue before reconstruction; nearlossless applies the sign inside. *)
+Definition interrupt_dec (pk : pkg) (p : jparams) (st : jstate) (ra rb : Z) (bits : list bool)
   : option (Z * jstate * list bool) :=
   if Z.abs (ra - rb) <=? jp_near p then
     match DecodeRunInterruption p (js_ri st) (js_rc1 st) bits with
@@ -219,7 +221,7 @@ Definition interrupt_dec (pk : pkg) (p : jparams) (bd : Z) (st : jstate) (ra rb 
     | Some (e, c1, r) =>
       let st' := mkJst (js_ctxs st) (js_rc0 st) c1 (js_ri st) in
       match pk with
-      | PkLossless => Some (ComputeReconstructedSample p ra (narrowErrorValue bd e), st', r)
+      | PkLossless => Some (ComputeReconstructedSample p ra (ll_computeErrorValue p e), st', r)
       | PkNear => Some (ComputeReconstructedSample p ra e, st', r)
       end
     end
@@ -230,7 +232,7 @@ Definition interrupt_dec (pk : pkg) (p : jparams) (bd : Z) (st : jstate) (ra rb 
       let st' := mkJst (js_ctxs st) c0 (js_rc1 st) (js_ri st) in
       match pk with
       | PkLossless =>
-        Some (ComputeReconstructedSample p rb (narrowErrorValue bd (e * signInt (rb - ra))), st', r)
+        Some (ComputeReconstructedSample p rb (ll_computeErrorValue p (e * signInt (rb - ra))), st', r)
       | PkNear => Some (ComputeReconstructedSample p rb (e * signInt (rb - ra)), st', r)
       end
     end.
@@ -293,7 +295,7 @@ Definition set_ctx (st : jstate) (i : nat) (c : rctx) : jstate :=
 
 (* encodeComponent, one line. inp = source samples of the line from x on.
    Result: state, current line (reversed), ops (reversed). *)
-Fixpoint enc_line1 (fuel : nat) (pk : pkg) (p : jparams) (bd w y pfp pn1 : Z)
+Fixpoint enc_line1 (fuel : nat) (pk : pkg) (p : jparams) (w y pfp pn1 : Z)
          (st : jstate) (x : Z) (pw : list Z) (cur_rev : list Z) (inp : list Z) (ops_rev : list wop)
   : outcome (jstate * list Z * list wop) :=
   match inp with
@@ -311,8 +313,8 @@ Fixpoint enc_line1 (fuel : nat) (pk : pkg) (p : jparams) (bd w y pfp pn1 : Z)
         | Some i =>
           let c := nth i (js_ctxs st) (mkCtx 0 0 0 0) in
           let '(ops, c', stored) :=
-            regular_enc pk (match pk with PkLossless => false | PkNear => true end) p bd c qs ra rb rc xs in
-          enc_line1 f pk p bd w y pfp pn1 (set_ctx st i c') (x + 1) (tl pw) (stored :: cur_rev) inp'
+            regular_enc pk (match pk with PkLossless => false | PkNear => true end) p c qs ra rb rc xs in
+          enc_line1 f pk p w y pfp pn1 (set_ctx st i c') (x + 1) (tl pw) (stored :: cur_rev) inp'
                     (rev_append ops ops_rev)
         end
       else
@@ -330,8 +332,8 @@ Fixpoint enc_line1 (fuel : nat) (pk : pkg) (p : jparams) (bd w y pfp pn1 : Z)
           | xi :: rest' =>
             let pw1 := skipn m pw in
             let rb' := if y >? 0 then win1 pw1 else 0 in
-            let '(iops, st2, recon) := interrupt_enc pk p bd st1 xi ra rb' in
-            enc_line1 f pk p bd w y pfp pn1 (set_ri st2 (dec_run_index (js_ri st2))) (x + n + 1)
+            let '(iops, st2, recon) := interrupt_enc pk p st1 xi ra rb' in
+            enc_line1 f pk p w y pfp pn1 (set_ri st2 (dec_run_index (js_ri st2))) (x + n + 1)
                       (tl pw1) (recon :: cur1) rest' (rev_append iops ops1)
           end
         end
@@ -339,7 +341,7 @@ Fixpoint enc_line1 (fuel : nat) (pk : pkg) (p : jparams) (bd w y pfp pn1 : Z)
   end.
 
 (* decodeComponent, one line *)
-Fixpoint dec_line1 (fuel : nat) (pk : pkg) (p : jparams) (bd w y pfp pn1 : Z)
+Fixpoint dec_line1 (fuel : nat) (pk : pkg) (p : jparams) (w y pfp pn1 : Z)
          (st : jstate) (x : Z) (pw : list Z) (cur_rev : list Z) (bits : list bool)
   : outcome (jstate * list Z * list bool) :=
   if x >=? w then Ok (st, cur_rev, bits) else
@@ -357,7 +359,7 @@ Fixpoint dec_line1 (fuel : nat) (pk : pkg) (p : jparams) (bd w y pfp pn1 : Z)
         match regular_dec p c qs ra rb rc bits with
         | None => Err
         | Some (v, c', r) =>
-          dec_line1 f pk p bd w y pfp pn1 (set_ctx st i c') (x + 1) (tl pw) (v :: cur_rev) r
+          dec_line1 f pk p w y pfp pn1 (set_ctx st i c') (x + 1) (tl pw) (v :: cur_rev) r
         end
       end
     else
@@ -371,10 +373,10 @@ Fixpoint dec_line1 (fuel : nat) (pk : pkg) (p : jparams) (bd w y pfp pn1 : Z)
         else
           let pw1 := skipn m pw in
           let rb' := if y >? 0 then win1 pw1 else 0 in
-          match interrupt_dec pk p bd st1 ra rb' r with
+          match interrupt_dec pk p st1 ra rb' r with
           | None => Err
           | Some (recon, st2, r') =>
-            dec_line1 f pk p bd w y pfp pn1 (set_ri st2 (dec_run_index (js_ri st2))) (x + n + 1)
+            dec_line1 f pk p w y pfp pn1 (set_ri st2 (dec_run_index (js_ri st2))) (x + n + 1)
                       (tl pw1) (recon :: cur1) r'
           end
       end
@@ -384,31 +386,31 @@ Fixpoint dec_line1 (fuel : nat) (pk : pkg) (p : jparams) (bd w y pfp pn1 : Z)
 Definition line_first (l : list Z) : Z := match l with a :: _ => a | [] => 0 end.
 
 (* the y loop of encodeComponent. pix = source samples from line y on. *)
-Fixpoint enc_lines1 (hfuel : nat) (pk : pkg) (p : jparams) (bd w : Z) (wn : nat) (y pfp pn1 : Z)
+Fixpoint enc_lines1 (hfuel : nat) (pk : pkg) (p : jparams) (w : Z) (wn : nat) (y pfp pn1 : Z)
          (st : jstate) (prev : list Z) (pix : list Z) (ops_rev : list wop)
   : outcome (list wop) :=
   match hfuel with
   | O => Ok ops_rev
   | S hf =>
-    match enc_line1 (S wn) pk p bd w y pfp pn1 st 0 (0 :: prev) [] (firstn wn pix) ops_rev with
+    match enc_line1 (S wn) pk p w y pfp pn1 st 0 (0 :: prev) [] (firstn wn pix) ops_rev with
     | Ok (st', cur_rev, ops') =>
       let cur := rev cur_rev in
-      enc_lines1 hf pk p bd w wn (y + 1) (line_first cur) pfp st' cur (skipn wn pix) ops'
+      enc_lines1 hf pk p w wn (y + 1) (line_first cur) pfp st' cur (skipn wn pix) ops'
     | Err => Err | Panic => Panic | OutOfFuel => OutOfFuel
     end
   end.
 
 (* the y loop of decodeComponent: all decoded lines, first line first, each as a list *)
-Fixpoint dec_lines1 (hfuel : nat) (pk : pkg) (p : jparams) (bd w : Z) (wn : nat) (y pfp pn1 : Z)
+Fixpoint dec_lines1 (hfuel : nat) (pk : pkg) (p : jparams) (w : Z) (wn : nat) (y pfp pn1 : Z)
          (st : jstate) (prev : list Z) (bits : list bool)
   : outcome (list (list Z)) :=
   match hfuel with
   | O => Ok []
   | S hf =>
-    match dec_line1 (S wn) pk p bd w y pfp pn1 st 0 (0 :: prev) [] bits with
+    match dec_line1 (S wn) pk p w y pfp pn1 st 0 (0 :: prev) [] bits with
     | Ok (st', cur_rev, r) =>
       let cur := rev cur_rev in
-      match dec_lines1 hf pk p bd w wn (y + 1) (line_first cur) pfp st' cur r with
+      match dec_lines1 hf pk p w wn (y + 1) (line_first cur) pfp st' cur r with
       | Ok ls => Ok (cur :: ls)
       | Err => Err | Panic => Panic | OutOfFuel => OutOfFuel
       end
@@ -431,13 +433,13 @@ Definition w3_2 (pw : list px3) : px3 :=
   match pw with _ :: _ :: a :: _ => a | [_; a] => a | _ => z3 end.
 
 (* one regular sample of component `comp` in the interleaved loop (encodeRegularSample) *)
-Definition regular_enc_i (pk : pkg) (p : jparams) (bd : Z) (st : jstate) (qs ra rb rc x : Z)
+Definition regular_enc_i (pk : pkg) (p : jparams) (st : jstate) (qs ra rb rc x : Z)
   : option (list wop * jstate * Z) :=
   match ctx_index pk qs with
   | None => None
   | Some i =>
     let c := nth i (js_ctxs st) (mkCtx 0 0 0 0) in
-    let '(ops, c', stored) := regular_enc pk true p bd c qs ra rb rc x in
+    let '(ops, c', stored) := regular_enc pk true p c qs ra rb rc x in
     Some (ops, set_ctx st i c', stored)
   end.
 
@@ -455,10 +457,10 @@ Definition regular_dec_i (pk : pkg) (p : jparams) (st : jstate) (qs ra rb rc : Z
 
 (* run interruption of one component in finishSampleRun / encodeSampleRunMode: always run
    context 0, sign = signInt(above - left) *)
-Definition interrupt_enc_i (pk : pkg) (p : jparams) (bd : Z) (st : jstate) (xs left above : Z)
+Definition interrupt_enc_i (pk : pkg) (p : jparams) (st : jstate) (xs left above : Z)
   : list wop * jstate * Z :=
   let sign := signInt (above - left) in
-  let errorValue := pk_error pk p bd (sign * (xs - above)) in
+  let errorValue := pk_error pk p (sign * (xs - above)) in
   let '(ops, c0) := EncodeRunInterruption p (js_ri st) (js_rc0 st) errorValue in
   (ops, mkJst (js_ctxs st) c0 (js_rc1 st) (js_ri st),
    ComputeReconstructedSample p above (errorValue * sign)).
@@ -493,7 +495,7 @@ Definition qs_of (p : jparams) (n : Z * Z * Z * Z) : Z :=
   let '(ra, rb, rc, rd) := n in context_qs p ra rb rc rd.
 
 (* encodeSampleInterleaved, one line *)
-Fixpoint enc_line3 (fuel : nat) (pk : pkg) (p : jparams) (bd w y : Z) (plf pplf : px3)
+Fixpoint enc_line3 (fuel : nat) (pk : pkg) (p : jparams) (w y : Z) (plf pplf : px3)
          (st : jstate) (x : Z) (pw : list px3) (cur_rev : list px3) (inp : list px3) (ops_rev : list wop)
   : outcome (jstate * list px3 * list wop) :=
   match inp with
@@ -527,10 +529,10 @@ Fixpoint enc_line3 (fuel : nat) (pk : pkg) (p : jparams) (bd w y : Z) (plf pplf 
                before it, which the run loop has set to lv); above: sampleNeighbors *)
             let ab (sel : px3 -> Z) :=
               snd (fst (fst (nb3 w y xi_pos plf pplf lv pw1 sel))) in
-            let '(o0, s0, r0) := interrupt_enc_i pk p bd st1 (p3_0 xi) (p3_0 lv) (ab p3_0) in
-            let '(o1, s1, r1) := interrupt_enc_i pk p bd s0 (p3_1 xi) (p3_1 lv) (ab p3_1) in
-            let '(o2, s2, r2) := interrupt_enc_i pk p bd s1 (p3_2 xi) (p3_2 lv) (ab p3_2) in
-            enc_line3 f pk p bd w y plf pplf (set_ri s2 (dec_run_index (js_ri s2))) (x + n + 1)
+            let '(o0, s0, r0) := interrupt_enc_i pk p st1 (p3_0 xi) (p3_0 lv) (ab p3_0) in
+            let '(o1, s1, r1) := interrupt_enc_i pk p s0 (p3_1 xi) (p3_1 lv) (ab p3_1) in
+            let '(o2, s2, r2) := interrupt_enc_i pk p s1 (p3_2 xi) (p3_2 lv) (ab p3_2) in
+            enc_line3 f pk p w y plf pplf (set_ri s2 (dec_run_index (js_ri s2))) (x + n + 1)
                       (tl pw1) ((r0, r1, r2) :: cur1) rest'
                       (rev_append o2 (rev_append o1 (rev_append o0 ops1)))
           end
@@ -539,16 +541,16 @@ Fixpoint enc_line3 (fuel : nat) (pk : pkg) (p : jparams) (bd w y : Z) (plf pplf 
         let '(ra0, rb0, rc0, _) := n0 in
         let '(ra1, rb1, rc1, _) := n1 in
         let '(ra2, rb2, rc2, _) := n2 in
-        match regular_enc_i pk p bd st q0 ra0 rb0 rc0 (p3_0 xs) with
+        match regular_enc_i pk p st q0 ra0 rb0 rc0 (p3_0 xs) with
         | None => Err
         | Some (o0, s0, v0) =>
-          match regular_enc_i pk p bd s0 q1 ra1 rb1 rc1 (p3_1 xs) with
+          match regular_enc_i pk p s0 q1 ra1 rb1 rc1 (p3_1 xs) with
           | None => Err
           | Some (o1, s1, v1) =>
-            match regular_enc_i pk p bd s1 q2 ra2 rb2 rc2 (p3_2 xs) with
+            match regular_enc_i pk p s1 q2 ra2 rb2 rc2 (p3_2 xs) with
             | None => Err
             | Some (o2, s2, v2) =>
-              enc_line3 f pk p bd w y plf pplf s2 (x + 1) (tl pw) ((v0, v1, v2) :: cur_rev) inp'
+              enc_line3 f pk p w y plf pplf s2 (x + 1) (tl pw) ((v0, v1, v2) :: cur_rev) inp'
                         (rev_append o2 (rev_append o1 (rev_append o0 ops_rev)))
             end
           end
@@ -619,16 +621,16 @@ Fixpoint dec_line3 (fuel : nat) (pk : pkg) (p : jparams) (w y : Z) (plf pplf : p
 
 Definition line_first3 (l : list px3) : px3 := match l with a :: _ => a | [] => z3 end.
 
-Fixpoint enc_lines3 (hfuel : nat) (pk : pkg) (p : jparams) (bd w : Z) (wn : nat) (y : Z) (plf pplf : px3)
+Fixpoint enc_lines3 (hfuel : nat) (pk : pkg) (p : jparams) (w : Z) (wn : nat) (y : Z) (plf pplf : px3)
          (st : jstate) (prev : list px3) (pix : list px3) (ops_rev : list wop)
   : outcome (list wop) :=
   match hfuel with
   | O => Ok ops_rev
   | S hf =>
-    match enc_line3 (S wn) pk p bd w y plf pplf st 0 (z3 :: prev) [] (firstn wn pix) ops_rev with
+    match enc_line3 (S wn) pk p w y plf pplf st 0 (z3 :: prev) [] (firstn wn pix) ops_rev with
     | Ok (st', cur_rev, ops') =>
       let cur := rev cur_rev in
-      enc_lines3 hf pk p bd w wn (y + 1) (line_first3 cur) plf st' cur (skipn wn pix) ops'
+      enc_lines3 hf pk p w wn (y + 1) (line_first3 cur) plf st' cur (skipn wn pix) ops'
     | Err => Err | Panic => Panic | OutOfFuel => OutOfFuel
     end
   end.
@@ -712,14 +714,14 @@ Definition write_sos (comps near : Z) : list Z :=
 (* ---------- encoders ---------- *)
 
 (* scan bytes (GolombWriter output incl. Flush) of an image given as integer samples *)
-Definition encode_scan_ops (pk : pkg) (p : jparams) (w h comps bd : Z) (pixels : list Z)
+Definition encode_scan_ops (pk : pkg) (p : jparams) (w h comps : Z) (pixels : list Z)
   : outcome (list wop) :=
   let wn := Z.to_nat w in
   let hn := Z.to_nat h in
   let st := jst_init p in
   match (if comps >? 1
-         then enc_lines3 hn pk p bd w wn 0 z3 z3 st [] (triples pixels) []
-         else enc_lines1 hn pk p bd w wn 0 0 0 st [] pixels []) with
+         then enc_lines3 hn pk p w wn 0 z3 z3 st [] (triples pixels) []
+         else enc_lines1 hn pk p w wn 0 0 0 st [] pixels []) with
   | Ok ops_rev => Ok (rev ops_rev)
   | Err => Err | Panic => Panic | OutOfFuel => OutOfFuel
   end.
@@ -734,7 +736,7 @@ Definition encode_image (pk : pkg) (w h comps bd near : Z) (pixelData : list Z) 
     if negb (zlen pixels =? w * h * comps) then Err     (* model domain, see header *)
     else
       let p := jls_params bd near in
-      match encode_scan_ops pk p w h comps bd pixels with
+      match encode_scan_ops pk p w h comps pixels with
       | Ok ops =>
         Ok ([255; 216] ++ write_sof55 w h comps bd ++ write_sos comps near ++ gw_run ops ++ [255; 217])
       | Err => Err | Panic => Panic | OutOfFuel => OutOfFuel
@@ -893,7 +895,7 @@ Definition decode_scan (pk : pkg) (lim : Z) (d : dstate) (p : jparams) (near : Z
       | Err => Err | Panic => Panic | OutOfFuel => OutOfFuel
       end
     else
-      match dec_lines1 hn pk p (d_bd d) (d_w d) wn 0 0 0 st [] bits with
+      match dec_lines1 hn pk p (d_w d) wn 0 0 0 st [] bits with
       | Ok ls => Ok (concat ls)
       | Err => Err | Panic => Panic | OutOfFuel => OutOfFuel
       end in
